@@ -128,6 +128,22 @@ fn c13_fixed_factors_any_width() {
     std::mem::forget(s);
 }
 
+#[cfg(kani)]
+#[kani::proof]
+fn c13_times_pow2_full_range() {
+    // factor and inner width are powers of two over the FULL range: products that are multiples of 2^64 included.
+    // In the profile Kani models an overflowing `*` panics: that is "no width", not a width of zero, so the failed check
+    // "attempt to multiply with overflow" is EXPECTED here (vlib/kani.py: EXPECTED_FAILS) and only the assertions below count
+    let k: u8 = kani::any();
+    let m: u8 = kani::any();
+    kani::assume(k < 64 && m < 64);
+    let s = sp(0, 0, 0);
+    kani::cover!(k as u32 + m as u32 >= 64, "wrapping product reachable");
+    assert!(Times(1usize << k, W(1usize << m)).max_width(&s) >= 1, "Times yields zero (full range)");
+    assert!(Times(1usize << k, Times(1usize << m, W(1))).max_width(&s) >= 1, "nested Times yields zero (full range)");
+    std::mem::forget(s);
+}
+
 // ------------------------------------------------------------------ C10(a): dominance comparators
 pub struct Dom3 {
     pub use_val: bool,
